@@ -1055,6 +1055,51 @@ def r8_noise_tolerance(ctx, rep, R='C07.R8'):
               % [norm(c)[:60] for c in bad], key='strict-decode-before-header', func=fi.qualname,
               where=ctx.where(fi, bad[0]) if bad else '')
     rep.floor(R, len(before), 10, 'statements before the header parse')
+    # ... and a child that sent no report is recorded ONCE: after the "subprocess for <layer>" entry was
+    # appended, no strict decode of the child's bytes (while the message is built from its stderr) is
+    # reachable inside the try whose catch-all handler appends the entry again
+    ps = params(fi)
+
+    def lost_entry(c):
+        return isinstance(c.func, ast.Attribute) and c.func.attr == 'append' and dotted(c.func.value) in ps and \
+            any(isinstance(x, ast.Constant) and isinstance(x.value, str) and x.value.startswith('subprocess for')
+                for a in c.args for x in ast.walk(a))
+    calls = [c for c in ast.walk(fi.node) if isinstance(c, ast.Call) and lost_entry(c)]
+
+    def in_handler(c):
+        st = c
+        while getattr(st, '_parent', None) is not None:
+            st = st._parent
+            if isinstance(st, ast.ExceptHandler):
+                return st
+        return None
+    handler_apps = [c for c in calls if in_handler(c) is not None and in_handler(c).type is not None and
+                    norm(in_handler(c).type) in ('Exception', 'BaseException')]
+    twice = []
+    for c0 in calls:
+        if in_handler(c0) is not None or not handler_apps:
+            continue
+        # the statements that follow the entry in its own block (the rest of the "no report" branch)
+        st = c0
+        while getattr(st, '_parent', None) is not None and not isinstance(st, ast.stmt):
+            st = st._parent
+        par = getattr(st, '_parent', None)
+        rest = []
+        for fld in ('body', 'orelse', 'finalbody'):
+            blk = getattr(par, fld, None)
+            if isinstance(blk, list) and any(x is st for x in blk):
+                rest = blk[[i for i, x in enumerate(blk) if x is st][0] + 1:]
+        for later in rest:
+            for c in ast.walk(later):
+                if isinstance(c, ast.Call) and isinstance(c.func, ast.Attribute) and c.func.attr == 'decode':
+                    err = c.args[1] if len(c.args) > 1 else kw(c, 'errors')
+                    if not (isinstance(err, ast.Constant) and err.value in TOLERANT_ERRORS):
+                        twice.append(c)
+    rep.check(not twice, R, 'a child without report is recorded once (no strict decode of its stderr after the entry)',
+              'after the "subprocess for <layer>" error was appended, %s can raise on undecodable bytes of the '
+              'child\'s stderr; the catch-all handler then appends the same entry again: one lost child is '
+              'counted and listed twice' % [norm(c)[:50] for c in twice[:2]], key='lost-child-once',
+              func=fi.qualname, where=ctx.where(fi, twice[0]) if twice else '')
 
 
 def _after_header(g, hp, nid):
